@@ -696,6 +696,50 @@ class Models:
     def x_pathlib_Path(self):
         return ClassVal(('ext', 'pathlib.Path'))
 
+    # ------------------------------------------------------------------ shutil (A-fs)
+    def x_shutil_move(self):
+        from . import fsmodel
+        return Builtin('shutil.move', lambda ex_, a, k: fsmodel.sh_move(ex_, a[0], a[1]))
+
+    def x_shutil_rmtree(self):
+        from . import fsmodel
+        return Builtin('shutil.rmtree', lambda ex_, a, k: fsmodel.sh_rmtree(ex_, a[0], **k))
+
+    def x_shutil_copyfile(self):
+        from . import fsmodel
+        return Builtin('shutil.copyfile', lambda ex_, a, k: fsmodel.sh_copy(ex_, a[0], a[1], 'copyfile'))
+
+    def x_shutil_copytree(self):
+        from . import fsmodel
+        return Builtin('shutil.copytree', lambda ex_, a, k: fsmodel.sh_copy(ex_, a[0], a[1], 'copytree'))
+
+    def x_shutil(self):
+        return ModuleVal(('ext', 'shutil'))
+
+    # ------------------------------------------------------------------ re (A-re): opaque functions of (pattern, text)
+    def x_re_sub(self):
+        def sub(ex_, a, k):
+            pat, repl, s = a[0], a[1], a[2]
+            if not isinstance(pat, str) or not isinstance(repl, str):
+                raise OutOfSubset('re.sub with non-constant pattern / callable replacement')
+            ex_.run.assumed.add('A-re')
+            if isinstance(s, str):
+                import re
+                return re.sub(pat, repl, s)
+            f = P.ufn('re_sub_' + _sepname(pat) + '_' + _sepname(repl), [z3.StringSort()], z3.StringSort())
+            return Sym(K.Str, f(P.str_t(ex_, s)))
+        return Builtin('re.sub', sub)
+
+    def x_re_fullmatch(self):
+        def fm(ex_, a, k):
+            ex_.run.assumed.add('A-re')
+            f = P.ufn('re_fullmatch', [z3.StringSort(), z3.StringSort()], z3.BoolSort())
+            return Sym(K.Bool, f(P.str_t(ex_, a[0]), P.str_t(ex_, a[1])))
+        return Builtin('re.fullmatch', fm)
+
+    def x_re(self):
+        return ModuleVal(('ext', 're'))
+
     # ------------------------------------------------------------------ hashlib (A-sha)
     def x_hashlib_sha256(self):
         return Builtin('hashlib.sha256', lambda ex_, a, k: ShaObj(a[0]))
